@@ -150,10 +150,31 @@ func (o outcome) line(viaJSON bool) string {
 	return head + " D " + o.decS + " R " + o.reS
 }
 
-const classOmit = "omitempty-rounds-to-zero"
-
 // jsonModelled: the model predicts the JSON form of this document (see Model/CodecJSON.lean).
-func jsonModelled(tc tcase) bool { return false }
+func jsonModelled(o outcome) bool {
+	return o.encOK && jsonCarries(o.enc) && !hasFloat32(o.enc)
+}
+
+// hasFloat32: the JSON text of a Float32 is the shortest decimal for float32; its float64 reading is not modelled.
+func hasFloat32(doc types.Value) bool {
+	switch x := doc.(type) {
+	case types.Float32:
+		return true
+	case types.Slice:
+		for _, e := range x.Values() {
+			if hasFloat32(e) {
+				return true
+			}
+		}
+	case types.Map:
+		for _, e := range x.Range() {
+			if hasFloat32(e) {
+				return true
+			}
+		}
+	}
+	return false
+}
 
 // ------------------------------------------------------------------ the property, checked directly
 
@@ -206,9 +227,6 @@ func jsonCarries(doc types.Value) bool {
 func check(tc tcase, o outcome) []lib.OracleFail {
 	var fails []lib.OracleFail
 	add := func(class, what string) {
-		if strings.HasSuffix(class, "reencode-differs") && omitRoundsToZero(tc.v) {
-			class = classOmit
-		}
 		fails = append(fails, lib.OracleFail{Class: class, What: what, Replay: tc.opLine() + "\n# implementation: " + o.line(tc.op == "js")})
 	}
 	pre := ""
@@ -341,9 +359,6 @@ func specOracle(c *lib.Ctx, g *G, sc *lib.Script) []lib.OracleFail {
 		tc := tcase{op: "as", src: st, dst: ut, v: v}
 		replay := tc.opLine()
 		add := func(class, what string) {
-			if (class == "spec-roundtrip-differs" || class == "spec-document-differs") && omitRoundsToZero(v) {
-				class = classOmit
-			}
 			fails = append(fails, lib.OracleFail{Class: class, What: what, Replay: replay})
 		}
 		c.Hit(map[bool]string{true: "spec-open", false: "spec-typed"}[open])
@@ -469,7 +484,8 @@ func Run(c *lib.Ctx) {
 		"inline-map keys are disjoint from the aliases of the enclosing struct; a struct has at most one inline map and inline structs contain none (C16 well-formedness, GoType.wf)",
 		"types outside the modelled universe (channels, funcs, custom marshalers other than time.Time/time.Duration/uuid.UUID, io.Reader buffers, error values, non-string map keys) are not claimed",
 		"maps behave as dictionaries in Range order (C15) and Equal/Compare/Hash are lawful (C14)",
-		"JSON: integers within ±2^53, finite floats, valid UTF-8 text (guards of C16.roundtrip_json)",
+		"JSON: integers within ±2^53, finite floats, valid UTF-8 text (guards of C16.roundtrip_json); js lines within the guards and without Float32 values are compared with the model's jsonForm + decode, the others are checked by the oracle only",
+		"omitempty: Go tests reflect.Value.IsZero first and then Equal(encoding, encoding of the zero value); the model has only the second test (a zero value encodes like the zero value)",
 	}
 	c.Trusted = []string{"reflect (StructOf, DeepEqual), encoding/json, time, gofrs/uuid text form"}
 	r := lib.NewRNG(c.Seed)
@@ -477,18 +493,9 @@ func Run(c *lib.Ctx) {
 	sc := &lib.Script{}
 	var fails []lib.OracleFail
 	seen := map[string]bool{}
-	knownKept := 0
 	addFails := func(fs []lib.OracleFail) {
 		for _, f := range fs {
 			k := f.Class + "|" + f.What
-			if f.Class == classOmit {
-				// failures of the known finding's class: keep a few, never let them crowd out others
-				c.Hit("known-finding-case")
-				if knownKept >= 5 {
-					continue
-				}
-				knownKept++
-			}
 			if !seen[k] && len(fails) < 200 {
 				seen[k] = true
 				fails = append(fails, f)
@@ -498,11 +505,18 @@ func Run(c *lib.Ctx) {
 	run := func(tc tcase) {
 		o := convert(tc.v, tc.dst, tc.op == "js")
 		line := tc.opLine()
-		if tc.src.modelled() && !strings.Contains(line, ": ptr time") && !strings.Contains(line, " ptr time") && (tc.op != "js" || jsonModelled(tc)) {
+		if tc.src.modelled() && !strings.Contains(line, ": ptr time") && !strings.Contains(line, " ptr time") && (tc.op != "js" || jsonModelled(o)) {
 			sc.Begin()
 			sc.Op(line, o.line(tc.op == "js"))
+			if tc.op == "js" {
+				c.Hit("js-line-compared-with-model")
+			}
 		} else {
-			c.Hit("oracle-only(*time.Time)")
+			if tc.op == "js" && !jsonModelled(o) {
+				c.Hit("oracle-only(js: float32 or outside the JSON guards)")
+			} else {
+				c.Hit("oracle-only(*time.Time)")
+			}
 		}
 		key := ""
 		if !tc.src.closed() || tc.src.el != nil || tc.src.k == "struct" {
@@ -510,6 +524,9 @@ func Run(c *lib.Ctx) {
 		}
 		c.Count(key)
 		c.Hit("op-" + tc.op)
+		if omitRoundsToZero(tc.v) {
+			c.Hit("omitempty-value-encodes-like-zero") // the class of the former known finding: now must round-trip
+		}
 		c.Hit("top-" + tc.src.k)
 		if o.panicked != "" {
 			c.Hit("outcome-panic")
